@@ -27,7 +27,8 @@ const (
 	opAdd = iota
 	opCount
 	opValues
-	opCond // ValuesConditional(t, always true): a reader that does not refresh the current slot first
+	opCond  // ValuesConditional(t, always true): a reader that does not refresh the current slot first
+	opAddRt // a response-time recorder (amount 5): besides the sum it maintains the bucket's minimum
 )
 
 type op struct {
@@ -120,6 +121,8 @@ func (s *scen) setup() {
 	for j := 0; j < int(s.N); j++ {
 		s.arr.VerifAddCountWithTime(s.staleStart(j), cb.MetricEventPass, s.staleAmt(j))
 	}
+	// a larger response time already sits in the youngest filled bucket (its minimum is 50)
+	s.arr.VerifAddCountWithTime(s.staleStart(int(s.N)-1), cb.MetricEventRt, 50)
 	// one conditional read before the threads start: whatever such a reader may keep between calls exists by then
 	_ = s.arr.ValuesConditional(s.staleStart(int(s.N)-1), func(uint64) bool { return true })
 	s.nStale = int(s.N)
@@ -254,6 +257,8 @@ func (s *scen) threads() []func() {
 					o.starts = sb.VerifStartsOf(s.arr.Values(o.T))
 				case opCond:
 					o.starts = sb.VerifStartsOf(s.arr.ValuesConditional(o.T, func(uint64) bool { return true }))
+				case opAddRt:
+					s.arr.VerifAddCountWithTime(o.T, cb.MetricEventRt, 5)
 				}
 				vsched.Point(vsched.KUser, nil)
 				s.end(ti, j)
@@ -591,6 +596,16 @@ func scenarios(c *props.Ctx) []*scen {
 			for j := 0; j < len(p1) && len(p2[i]) == 2; j++ {
 				if hasAdd(p2[i]) || hasAdd(p1[j]) {
 					out = append(out, &scen{N: g.N, BL: g.BL, B: g.B, Progs: [][]op{p2[i], p1[j]}, Bound: 2, Gap: true})
+				}
+			}
+		}
+		// response-time recorders (they also maintain the bucket's minimum) against a recorder that rolls the
+		// bucket over, and against each other: every one of them terminates
+		for _, t1 := range ts {
+			for _, t2 := range ts {
+				out = append(out, &scen{N: g.N, BL: g.BL, B: g.B, Progs: [][]op{{{Kind: opAddRt, T: t1}}, {{Kind: opAdd, T: t2}}}, Bound: -1})
+				if t2 >= t1 {
+					out = append(out, &scen{N: g.N, BL: g.BL, B: g.B, Progs: [][]op{{{Kind: opAddRt, T: t1}}, {{Kind: opAddRt, T: t2}}}, Bound: -1})
 				}
 			}
 		}
